@@ -428,6 +428,11 @@ class Scheduler:
                 with self.cv:
                     self.running += 1
                 t.go.release()
+        except BaseException:
+            # a failing chooser must not leave parked threads behind
+            if not self.aborting:
+                self._abort()
+            raise
         finally:
             self.active = False
         return res
